@@ -1,5 +1,79 @@
-from mulib import mu_check
+"""C16: the debug-state functions only observe (a: Mu.tla with a debug caller) and stay inside the caller's buffer
+(b: Emit.tla, the bounded emit buffer as a pure function, evaluated by TLC on the texts the real functions produce)."""
+import subprocess, shutil
+from mulib import *
+
+
+def buffer_part(run, exe_unused, results, env):
+    import c15
+    exes = c15.build_libs()          # libnsync.a / libnsync_cpp.a by the repository's CMake, from the current tree
+    cm = os.path.dirname(exes["c"])
+    d = os.path.join(WORK, "emit")
+    os.makedirs(d, exist_ok=True)
+    shutil.copy(os.path.join(SPEC, "Emit.tla"), os.path.join(d, "Emit.tla"))
+    # the law, for all texts up to length 6 over a 3-letter alphabet and all buffer sizes
+    open(os.path.join(d, "MC_law.tla"), "w").write("---- MODULE MC_law ----\nEXTENDS Emit\nMCTexts == <<>>\n====\n")
+    open(os.path.join(d, "MC_law.cfg"), "w").write("SPECIFICATION Spec\nCONSTANTS DOT = 3 MaxLen = 6 MaxN = 0 Texts <- MCTexts\nINVARIANT Law\nCHECK_DEADLOCK FALSE\n")
+    info = tlc_plain(os.path.join(d, "MC_law.tla"), os.path.join(d, "MC_law.cfg"), workers=4, cwd=d)
+    if not info["ok"]:
+        raise ToolFailure("TLC refutes the buffer law on Emit.tla (spec error): " + info["out"][-1200:])
+    run.cov["emit_law_states"] = info["distinct"]
+    total = 0
+    for lang in ("c", "cpp"):
+        drv = os.path.join(cm, "drv16_" + lang)
+        src = os.path.join(VERIF, "drv", "c16_driver.c")
+        if lang == "c":
+            cmd = ["gcc", "-O1", "-w", "-o", drv, src, os.path.join(cm, "libnsync.a"), "-lpthread", "-I", os.path.join(REPO, "public")]
+        else:
+            cmd = ["g++", "-std=c++11", "-x", "c++", "-O1", "-w", "-DNSYNC_USE_CPP11_TIMEPOINT", "-DNSYNC_ATOMIC_CPP11", "-o", drv, src, "-x", "none", os.path.join(cm, "libnsync_cpp.a"), "-lpthread", "-I", os.path.join(REPO, "public")]
+        r = subprocess.run(cmd, stdout=subprocess.PIPE, stderr=subprocess.STDOUT, text=True)
+        if r.returncode:
+            raise ToolFailure("building the C16 driver failed: " + r.stdout[-1200:])
+        try:
+            r = subprocess.run([drv], stdout=subprocess.PIPE, stderr=subprocess.PIPE, text=True, timeout=90)
+        except subprocess.TimeoutExpired:
+            run.violation("O-prog|debug_state|%s" % lang, "-", "the debug-state driver hung (%s build)" % lang)
+            continue
+        if r.returncode != 0:
+            run.violation("O-crash|debug_state|%s" % lang, "-", "the debug-state driver died with status %d (%s build)" % (r.returncode, lang))
+            continue
+        texts = {}; bufs = {}
+        for l in r.stdout.splitlines():
+            p = l.split()
+            if p[0] == "T":
+                texts[int(p[1])] = [int(x) for x in p[3:]]
+            elif p[0] == "B":
+                bufs[(int(p[1]), int(p[2]))] = (int(p[3]), [int(x) for x in p[4:]])
+        ids = sorted(texts)
+        tl = "<<" + ", ".join("<<" + ", ".join(str(c) for c in texts[i]) + ">>" for i in ids) + ">>"
+        open(os.path.join(d, "MC_eval.tla"), "w").write("---- MODULE MC_eval ----\nEXTENDS Emit\nMCTexts == %s\n====\n" % tl)
+        open(os.path.join(d, "MC_eval.cfg"), "w").write("SPECIFICATION EvalSpec\nCONSTANTS DOT = 46 MaxLen = 0 MaxN = 80 Texts <- MCTexts\nCONSTRAINT EmitAll\nCHECK_DEADLOCK FALSE\n")
+        info = tlc_plain(os.path.join(d, "MC_eval.tla"), os.path.join(d, "MC_eval.cfg"), workers=2, cwd=d)
+        exp = {}
+        for l in info["out"].splitlines():
+            if l.startswith('"['):
+                rec = json.loads(json.loads(l))
+                exp[(ids[rec[1] - 1], rec[2])] = rec[3]
+        if len(exp) < len(ids) * 81:
+            raise ToolFailure("TLC did not evaluate Emit.tla on the texts: " + info["out"][-1200:])
+        for key, (ok, got) in sorted(bufs.items()):
+            total += 1
+            e = exp[key]
+            # bytes beyond what the function wrote keep the 0xA5 fill: compare the written prefix, require the rest untouched
+            wrote = got[:len(e)]
+            rest_ok = all(b == 0xA5 for b in got[len(e):])
+            if not ok or wrote != e or not rest_ok:
+                rp = os.path.join(REPLAYS, "C16_buf_%s_%d_%d.txt" % (lang, key[0], key[1]))
+                open(rp, "w").write("build %s text %s n %d\nexpected %s\ngot %s guards_intact %d\n" % (lang, texts[key[0]], key[1], e, got, ok))
+                what = "wrote outside buf[0..n-1]" if not ok else "buffer contents differ from Emit.tla's Emitted(text, n)"
+                run.violation("O-canary|debug_state|n=%d|%s" % (key[1], lang), rp, "%s build, text #%d (%d chars), n=%d: %s; expected %s got %s" % (lang, key[0], len(texts[key[0]]), key[1], what, e[-6:], got[max(0, len(e) - 6):len(e) + 2]))
+        run.sample({"build": lang, "texts": len(ids), "example_text": "".join(chr(c) for c in texts[ids[-1]])[:120]})
+    run.add("evaluations", total); run.add("distinct_nontrivial", total)
+    run.cov["buffer_cases"] = total
 
 
 def main(tier, replay=None):
-    return mu_check("C16", tier, replay)
+    return mu_check("C16", tier, replay, post=buffer_part,
+                    extra_rule="; part (b): for the C and C++ libraries, in states with 0..3 waiters queued on a mutex / cv, each of the four debug-state functions is called "
+                               "with n = 0..80 into a guard-framed buffer and the bytes must equal Emitted(text, n) as evaluated by TLC from Emit.tla (whose law is model-checked "
+                               "for all texts up to length 6)")
